@@ -72,7 +72,7 @@ def check(ctx, src):
         ctx.check(ok, "Q-ATTRS", f"{R}|render_quoted_form|{cls}", f"{cls} must be rebuilt from its text with from_parser=True (symbols that look special must not be re-validated)", R, f.lineno, detail=content)
     # the FString/FComponent arms are inside the Sequence arm
     seq = arms.get("Sequence")
-    ctx.require(seq is not None, "Sequence arm not found")
+    ctx.need(seq is not None, "Sequence arm not found")
     loop = next((s for s in seq.body if isinstance(s, ast.For)), None)
     ctx.check(loop is not None and norm(loop.iter) == "form" and "contents.append(f_contents)" in [norm(s) for s in loop.body] and "body = [List(contents)]" in [norm(s) for s in seq.body], "Q-CLASS",
               f"{R}|render_quoted_form|all children", "a sequence model must be rebuilt from every child, in order", R, seq.lineno, witness="(quote (a b c)) loses elements", detail="for x in form: contents.append(...)")
